@@ -941,11 +941,13 @@ class Sim:
                     self.viol({'C03'}, 'result_before_accept_callback', job=j.jid)
         # consumed-result counters: the READY just processed must be credited
         # to the worker that produced it (that worker's exit waits on it)
-        if st == 1 and not is_dup and j is not None and not j.discarded:
+        # - whether or not the job is still known to the pool (a map that
+        # failed on an earlier chunk, a job resolved by a time limit, ...)
+        if st == 1 and not is_dup and j is not None:
             sender = self.ready_sender.get((args[0], args[1]))
             for pid, c in pool._on_ready_counters.items():
                 d = c.value - ctr_before.get(pid, 0)
-                want = 1 if (pid == sender and incache) else 0
+                want = 1 if pid == sender else 0
                 if d != want:
                     self.stat('counter_miscredit')
                     self.viol({'C09', 'C07'}, 'consumed_counter_miscredited',
